@@ -22,6 +22,17 @@
 #include <xalanc/XMLSupport/FormatterToXML.hpp>
 #include <xalanc/XMLSupport/XalanXMLSerializerFactory.hpp>
 
+
+// the bytes that follow a (pointer, length) slice in memory: chosen so that they COMPLETE a sequence the serializer looks ahead for
+// (a slice ending in "]]" is followed by ">", one ending in "]" by "]>"), which makes a read past 'length' change the output
+static std::string hostileTail(const std::string& v)
+{
+    const size_t n = v.size();
+    if (n >= 2 && v[n - 1] == ']' && v[n - 2] == ']') return ">&<]]>";
+    if (n >= 1 && v[n - 1] == ']') return "]>&<";
+    return "]]>&<";
+}
+
 using namespace xalanc;
 
 void replayEvents(const Msg& req, FormatterListener& fl, size_t* nEvents)
@@ -52,9 +63,9 @@ void replayEvents(const Msg& req, FormatterListener& fl, size_t* nEvents)
         else if (k == "EE") { XalanDOMString nm = dom(v); fl.endElement(nm.c_str()); }
         // CH / CD are (pointer, length) interfaces: pass a slice of a longer buffer whose tail is hostile,
         // so that a serializer reading past 'length' becomes observable
-        else if (k == "CH") { XalanDOMString s = dom(v + "]]>&<"); fl.characters(s.c_str(), s.length() - 5); }
+        else if (k == "CH") { const std::string t = hostileTail(v); XalanDOMString s = dom(v + t); fl.characters(s.c_str(), s.length() - t.size()); }
         else if (k == "CR") { XalanDOMString s = dom(v); fl.charactersRaw(s.c_str(), s.length()); }
-        else if (k == "CD") { XalanDOMString s = dom(v + "]]>&<"); fl.cdata(s.c_str(), s.length() - 5); }
+        else if (k == "CD") { const std::string t = hostileTail(v); XalanDOMString s = dom(v + t); fl.cdata(s.c_str(), s.length() - t.size()); }
         else if (k == "IW") { XalanDOMString s = dom(v); fl.ignorableWhitespace(s.c_str(), s.length()); }
         else if (k == "CM") { XalanDOMString s = dom(v); fl.comment(s.c_str()); }
         else if (k == "ER") { XalanDOMString s = dom(v); fl.entityReference(s.c_str()); }
